@@ -254,6 +254,39 @@ def oracle(case, ctx):
             discs.append(D("overwrite_run_skips", "%d fits with overwriting enabled, expected %d" % (doubles.CALLS["fits"], n_fits_full)))
         if discs:
             return discs
+        # ---------- a sequence of runs whose options grow (nothing is overwritten): the second
+        # run produces exactly what is missing and the store ends up like an uninterrupted run
+        if case["predict_on_train"] or case["save_fitted"]:
+            d = os.path.join(root, "seq")
+            shutil.rmtree(d, ignore_errors=True)
+            os.makedirs(d)
+            first = dict(case, predict_on_train=False, save_fitted=False)
+            r1 = sut(run, first, HDDResults(d))
+            if isinstance(r1, Raised):
+                return [D("run_raised:%s@%s" % (r1.type, r1.where), "first run of an option sequence: " + r1.msg)]
+            files1 = listing(d)
+            doubles.reset_calls()
+            r2 = sut(run, case, HDDResults(d))
+            ctx.label("option_sequence")
+            if isinstance(r2, Raised):
+                discs.append(D("option_sequence_run_raised:%s@%s" % (r2.type, r2.where), r2.msg))
+            else:
+                files2 = listing(d)
+                changed = [k for k in files1 if k.endswith(".csv") and files2.get(k) != files1[k]]
+                if changed:
+                    discs.append(D("option_sequence_modifies_completed_file", "%s changed or vanished in the second run" % changed[:3]))
+                discs += same_records(records_on_disk(d), exp, "disk_after_option_sequence")
+                if case["save_fitted"]:
+                    want = {os.path.join(s_, d_, "%s_train_%d.pickle" % (s_, f_)) for (s_, d_, f_) in units(case)}
+                    have = {k for k in files2 if k.endswith(".pickle") and k != "results.pickle"}
+                    if have != want:
+                        discs.append(D("option_sequence_fitted_strategy_files", "missing %s unexpected %s" % (sorted(want - have)[:3], sorted(have - want)[:3])))
+                doubles.reset_calls()
+                r3 = sut(run, case, HDDResults(d))
+                if not isinstance(r3, Raised) and doubles.CALLS["fits"] != 0:
+                    discs.append(D("identical_rerun_recomputes", "%d fits in a run repeating the last options of a sequence" % doubles.CALLS["fits"]))
+            if discs:
+                return discs
         # ---------- every crash point
         ks = range(1, K + 1) if case["crash_points"] == "all" else sorted(set(1 + (k % K) for k in case["crash_points"]))
         n_nontrivial = 0
